@@ -29,6 +29,7 @@ import (
 	"path/filepath"
 	"runtime"
 	"sort"
+	"strconv"
 	"strings"
 	"sync"
 	"sync/atomic"
@@ -485,7 +486,8 @@ func (e *c34Env) boundaryCases() []c34Case {
 				if p.Class == "root-directory-rpm" && f != "rpm" {
 					continue
 				}
-				if p.Class == "device-source-deb" && f != "deb" {
+				if p.Class == "device-source-deb" && (f != "deb" || e.c.Prop != "C04") {
+					// a C04 class (member names); what md5sums should say about a device member is outside C03's statement
 					continue
 				}
 				var comps []string
@@ -1632,7 +1634,13 @@ func (e *c34Env) analyse(fam, format string, s *PkgSpec, data []byte, res *c34Re
 					res.Checks = append(res.Checks, "apkcontrolseg")
 					res.TarBy["apk:control:assembly-compared"]++
 					tarb := sg.Tar
-					ask(fmt.Sprintf("apkcontrolseg %s %d%s", wire.H(string(pk)), n, sc.String()), func(ans string) {
+					pkMT := int64(0)
+					if s.MTime != wire.ZeroTime {
+						pkMT = s.MTime
+					} else if os.Getenv("SOURCE_DATE_EPOCH") != "" {
+						pkMT, _ = strconv.ParseInt(os.Getenv("SOURCE_DATE_EPOCH"), 10, 64)
+					}
+					ask(fmt.Sprintf("apkcontrolseg %s %d %d%s", wire.H(string(pk)), pkMT, n, sc.String()), func(ans string) {
 						got, _ := wire.UnH(ans)
 						if got != string(tarb) {
 							res.f04("apk:control-segment-differs-from-model", "the control segment is not what the model of apk.createBuilderControl assembles from .PKGINFO and the configured script files (member set, order, names, modes, times, checksum records or bodies differ): "+c34FirstDiff(got, string(tarb)))
